@@ -1,0 +1,14 @@
+//go:build verif
+
+// Contracts for the deductive verification in /verif (comment-only; compiled code is unaffected).
+package grpc
+
+// The configuration obligations of property C19 are the preconditions of credentials.NewTLS and grpc.NewServer
+// (externs.spec): client certificates required and verified against the configured pool, TLS 1.3 minimum, the server
+// built with exactly these credentials and with the client-info interceptor in its unary chain.
+
+//@ func (*Service).createServer
+//@ requires s != nil
+//@ modifies s.grpcServer
+//@ ensures [server] result == nil ==> s.grpcServer != nil
+//@ hint-after before:NewServer@1 [opts] len(grpcOpts) == 3 && tlsCreds(credsOf(grpcOpts[2])) && chainHas(chainOf(grpcOpts[1]), funcref("interceptors.ClientInfoInterceptor$1"))
